@@ -709,6 +709,21 @@ BITS_P_COV = ["ReadByte", "ReadPast"]
 
 
 # ------------------------------------------------------------------ verdicts
+def not_reproduced(ctx, e, line, again):
+    """A rejected execution that is accepted when re-run.  The only source of
+    non-determinism of the harnesses is the time limit per execution (a
+    `hang` event on an overloaded machine): such an execution is not reported
+    (DESIGN.md 2.2: a violation must reproduce) but counted; anything else
+    is a tool error."""
+    ev = e.events[line - 1] if 0 < line <= len(e.events) else {}
+    if ev.get("e") == "San" and ev.get("kind") == "hang":
+        ctx.extra["time_limits_not_reproduced"] = ctx.extra.get("time_limits_not_reproduced", 0) + 1
+        ctx.notes.append("an execution hit the time limit of the harness once and ran normally when repeated (machine load): not reported")
+        return
+    raise vlib.ToolError("rejected execution did not reproduce (flaky harness?): script %s | rejected event %d %s | events of the re-run %s"
+                         % (e.cmds[:6], line, json.dumps(ev)[:300], json.dumps(again.events[:line + 1])[:600]))
+
+
 def chain_key(chain):
     return tuple(ENCS.index(c) if c in ENCS else 9 for c in chain if c is not None)
 
@@ -808,7 +823,8 @@ def judge_frames(ctx, binp, rejected):
         execute(ctx, binp, [again], jobs=1)
         r2 = validate(ctx, [again], "re", jobs=1)
         if not r2:
-            raise vlib.ToolError("rejected execution did not reproduce (flaky harness?): %s" % rep.cmds)
+            not_reproduced(ctx, rep, rj.get(id(rep), next((l for x, l in rejected if x is rep), 0)), again)
+            continue
         line = r2[0][1]
         what = "%s: event %d %s of the real code is rejected by Nal_Trace (script: %s)%s" % (
             key, line, json.dumps(again.events[line - 1])[:400], "; ".join(again.cmds[:10])[:600], what_eff)
@@ -847,12 +863,13 @@ def judge_rbsp(ctx, binp, rejected):
         groups.setdefault(key, []).append((e, line))
     for key, lst in sorted(groups.items()):
         lst.sort(key=lambda x: (len(x[0].meta.get("bytes", [])), len(x[0].cmds[-1])))
-        e, _ = lst[0]
+        e, line0 = lst[0]
         again = Exe(e.cmds, e.source, e.meta)
         execute(ctx, binp, [again], jobs=1)
         r2 = validate(ctx, [again], "rb", jobs=1)
         if not r2:
-            raise vlib.ToolError("rejected execution did not reproduce (flaky harness?): %s" % e.cmds)
+            not_reproduced(ctx, e, line0, again)
+            continue
         line = r2[0][1]
         key2, ev = rbsp_symptom(again, line)
         what = "%s: event %d %s of the real code is rejected by Nal_Trace (octets %s; script: %s)" % (
@@ -1179,16 +1196,17 @@ def judge_framer(ctx, binp, rejected):
     reps = []
     for key, lst in sorted(groups.items()):
         lst.sort(key=lambda x: (len(x[0].meta["stream"]), len(x[0].cmds)))
-        e, _ = lst[0]
-        reps.append((key, Exe(e.cmds, e.source, e.meta), len(lst)))
+        e, line0 = lst[0]
+        reps.append((key, Exe(e.cmds, e.source, e.meta), len(lst), e, line0))
     if not reps:
         return
     # reproduce: same scripts, fresh process, fresh TLC run (one for all)
-    execute(ctx, binp, [a for _, a, _ in reps], jobs=2)
-    r2 = {id(x): line for x, line in validate(ctx, [a for _, a, _ in reps], "fr", jobs=1)}
-    for key, again, n in reps:
+    execute(ctx, binp, [a for _, a, _, _, _ in reps], jobs=2)
+    r2 = {id(x): line for x, line in validate(ctx, [a for _, a, _, _, _ in reps], "fr", jobs=1)}
+    for key, again, n, e0, line0 in reps:
         if id(again) not in r2:
-            raise vlib.ToolError("rejected execution did not reproduce (flaky harness?): %s" % again.cmds[:4])
+            not_reproduced(ctx, e0, line0, again)
+            continue
         line = r2[id(again)]
         key2, ev = framer_symptom(again, line)
         what = "%s: event %d %s of the real framer is rejected by Nal_Trace (stream of %d octets, access units %s; script: %s)" % (
